@@ -1,4 +1,4 @@
-import PG.Props.C02
+import PG.Props.C02b
 #print axioms PG.C02_parses
 #print axioms PG.C02_class
 #print axioms PG.C02_method
@@ -10,3 +10,7 @@ import PG.Props.C02
 #print axioms PG.C02_typed
 #print axioms PG.C02_signature
 #print axioms PG.C02_pm_indep
+#print axioms PG.records_valid_utf8
+#print axioms PG.reprR_of_records
+#print axioms PG.small_of_length
+#print axioms PG.C02_bytes
